@@ -153,13 +153,18 @@ package state
 //@ func TimeSequenceHandler.Next
 //@   modifies sh.out, sh.lock
 
-// Sessions are created from stored router records. Records reach the storage through AddRouter (verified identities
-// only) or from the local state file, which is trusted: the session invariant of the result is assumed, not proved.
+// Sessions are created from stored router records (verified identities only, see the storage contracts) and are
+// filed under the address of that identity: the session found for an address carries the key bound to that address.
+//@ type Session
+//@   frozen id, address, state by State.GetSession
+//@   invariant bound-to-address [C07]: self.address != nil && self.address.IP == self.id && self.address.verified
+//@ type State
+//@   guarded sessions by sessionsLock
+//@   invariant sessions-by-address [C07]: forall ip netip.Addr :: has(self.sessions, ip) ==> (self.sessions[ip] != nil ==> self.sessions[ip].id == ip)
+//@   invariant session-map [C13]: self.sessions != nil
 //@ func State.GetSession
-//@   option trusted
-//@   modifies nothing
-//@   havoc F|state.Session, F|state.State, MP|map[net/netip.Addr]*state.Session
-//@   ensures session: true
+//@   modifies any("F|state.Session"), any("F|storage."), any("MP|map[net/netip.Addr]*state.Session")
+//@   ensures session-of-that-address [C07]: result != nil ==> result.id == ip && result.address != nil && result.address.IP == ip && result.address.verified
 
 // Environment of the handshake: storage and key-exchange internals (ECDH, BLAKE3) are not modelled; these calls are
 // assumed not to touch frames, links or the configuration.
